@@ -32,7 +32,7 @@ def run(ctx, pid):
     r = chainlib.model_run(ctx, "MC_Ledger.tla", "MC_Ledger.cfg", workers=8)
     trace, stats, out = chainlib.run_histories(ctx, quick, extra_args=["-replays"])
     if stats is None:
-        raise vlib.CheckError("driver failed:\n" + out[-3000:])
+        vlib.driver_failure(ctx, out)
     pred = (lambda c: c in mine or (pid == "C06" and c.startswith("Replay-")))
     ok, info = chainlib.validate(ctx, trace, "Trace_Ledger.tla", "Trace_Ledger.cfg", pred, pid, describe_any)
     rel_stats = None
